@@ -206,7 +206,8 @@ impl Fixtures {
             if let Some(a) = &cfg.audio {
                 // tags run from 2: the packet of step 1 is the code-3 Opus packet whose TOC byte the
                 // invalid code-3 fixtures share
-                f.audio_ok.push(Bytes::new(frames::audio_frame(a.codec, i + 2, 4 + i as usize).0));
+                // the Opus packet of step 2 is a lone TOC byte (an empty frame), the shortest legal packet
+                f.audio_ok.push(Bytes::new(frames::audio_frame(a.codec, i + 2, if !a.codec.is_aac() && i == 2 { 0 } else { 4 + i as usize }).0));
             }
         }
         match cfg.audio.as_ref().map(|a| a.codec) {
